@@ -294,6 +294,11 @@ func (w *World) Transport(tap *Tap) *fdohttp.Transport {
 
 // NewDevice runs DI for a fresh device of the given kind and encoding.
 func (w *World) NewDevice(ctx context.Context, k Kind, enc protocol.KeyEncoding, role string, tap *Tap) (*Device, error) {
+	return w.NewDeviceVia(ctx, k, enc, role, w.Transport(tap))
+}
+
+// NewDeviceVia runs DI over the given transport.
+func (w *World) NewDeviceVia(ctx context.Context, k Kind, enc protocol.KeyEncoding, role string, transport fdo.Transport) (*Device, error) {
 	name := k.PoolKey + "/" + role
 	key := Key(name)
 	secret := make([]byte, 32)
@@ -320,7 +325,7 @@ func (w *World) NewDevice(ctx context.Context, k Kind, enc protocol.KeyEncoding,
 	serial := make([]byte, 8)
 	_, _ = rand.Read(serial)
 	h256, h384 := d.Hmacs()
-	cred, err := fdo.DI(ctx, w.Transport(tap), custom.DeviceMfgInfo{
+	cred, err := fdo.DI(ctx, transport, custom.DeviceMfgInfo{
 		KeyType: k.Type, KeyEncoding: enc, SerialNumber: hex.EncodeToString(serial), DeviceInfo: "labdev",
 		CertInfo: cbor.X509CertificateRequest(*csr),
 	}, fdo.DIConfig{HmacSha256: h256, HmacSha384: h384, Key: key, PSS: k.PSS})
